@@ -78,6 +78,10 @@ CHECKS["C08"] = ("§5 C08", "Field-by-field equality (walking the real protobuf 
     "snapshots (0-2 frames, 0-3 table entries with children, good/error watches from 4 sources, 12 attribute value shapes, optional fields present/absent, boundary numeric "
     "values, one string field at a time replaced by empty / non-ASCII / control / long text) and the message produced by the real convert_snapshot, plus serialise/parse "
     "round trip; poll and send requests carry exactly the auth provider's metadata for 4 provider and 4 credential configurations.")
+CHECKS["C09"] = ("§5 C09", "The real TaskHandler.submit_task (with its completion callback), flush, __check_open and PushService.push_snapshot, statement-stepped "
+    "from the current source and run as threads (application thread + 2 pool workers on a simulated FIFO executor) under a context-bounded scheduler whose pre-emption point "
+    "is a SYMBOLIC step index (the solver partitions it over the steps actually taken): every accepted task runs exactly once on a worker, failures are contained, flush "
+    "returns normally only after every earlier task finished, submissions after flush are refused visibly, nothing stays pending.")
 PENDING = {}
 
 def main():
